@@ -18,7 +18,10 @@ type rpcClient struct {
 	xid     uint32
 	timeout time.Duration
 	authSys bool // AUTH_SYS (uid 0, gid 0) instead of AUTH_NONE
-	lastLen int  // length of the last call record sent (without the 4-byte record mark)
+	lastLen int  // length of the last call record sent (payload: without the record marks)
+	frag    int  // > 0: split the next calls into fragments of this many bytes (RFC 5531 section 11)
+	empties int  // with frag > 0: this many empty non-final fragments are interleaved
+	lastN   int  // number of fragments of the last call record sent
 }
 
 const (
@@ -71,7 +74,45 @@ func (c *rpcClient) call(prog, vers, proc uint32, args []byte) (xid uint32, raw 
 	msg := c.callMsg(xid, prog, vers, proc, args)
 	c.lastLen = len(msg)
 	c.conn.SetDeadline(time.Now().Add(c.timeout))
-	frame := append(be32(0x80000000|uint32(len(msg))), msg...)
+	var frame []byte
+	c.lastN = 1
+	if c.frag <= 0 || len(msg) == 0 {
+		frame = append(be32(0x80000000|uint32(len(msg))), msg...)
+	} else {
+		n := (len(msg) + c.frag - 1) / c.frag
+		frame = make([]byte, 0, len(msg)+4*(n+c.empties))
+		c.lastN = n + c.empties
+		for i := 0; i < n; i++ {
+			// empty non-final fragments: in front, and after the first and the middle data fragment
+			if c.empties > 0 && i == 0 {
+				frame = append(frame, be32(0)...)
+			}
+			lo, hi := i*c.frag, (i+1)*c.frag
+			if hi > len(msg) {
+				hi = len(msg)
+			}
+			h := uint32(hi - lo)
+			if i == n-1 {
+				h |= 0x80000000
+			}
+			frame = append(frame, be32(h)...)
+			frame = append(frame, msg[lo:hi]...)
+			if i < n-1 {
+				for k := 1; k < c.empties; k++ {
+					if i == (k-1)*(n-1)/c.empties {
+						frame = append(frame, be32(0)...)
+					}
+				}
+			}
+		}
+		// make the count exact whatever the placement above did
+		c.lastN = 0
+		for off := 0; off < len(frame); {
+			l := int(binary.BigEndian.Uint32(frame[off:]) & 0x7fffffff)
+			off += 4 + l
+			c.lastN++
+		}
+	}
 	if _, err = c.conn.Write(frame); err != nil {
 		return xid, nil, err
 	}
